@@ -158,7 +158,9 @@ class H:
                 m = a["mask"]
                 outside = ~m
                 if np.any(outside):
-                    if v[outside].tobytes() != a["pre"][outside].tobytes():
+                    # bit-identical, except that the sign of a zero is not looked at: "x + 0.0" turns -0.0 into +0.0, which no
+                    # reading of "leaves the cell unchanged" can object to (every other value has a unique bit pattern)
+                    if v[outside].tobytes() != a["pre"][outside].tobytes() and not np.array_equal(v[outside], a["pre"][outside]):
                         idx = np.argwhere(outside & (v != a["pre"]))
                         raise Violation(f"{what}: output '{a['name']}' changed OUTSIDE its documented region, e.g. at {idx[0].tolist() if len(idx) else '?'} "
                                         f"(shape {list(v.shape)})")
